@@ -144,6 +144,13 @@ func build(topics bool) *Store {
 				panic(err)
 			}
 		}
+		// the registry contract is permissionless: operators 15 and 16 registered public keys that are not RSA keys
+		// (valid base64 of garbage / not even base64); the event handler stores the bytes as they come
+		for id, pk := range map[spectypes.OperatorID]string{15: "bm90IGFuIFJTQSBwdWJsaWMga2V5", 16: "%%% not base64 %%%"} {
+			if _, err := ns.SaveOperatorData(nil, &registrystorage.OperatorData{ID: id, PublicKey: []byte(pk)}); err != nil {
+				panic(err)
+			}
+		}
 		s.Rogue, _ = keys.GeneratePrivateKey()
 		mkpk := func(state string, n int, index int, pk []byte) *Val {
 			ks := fx.KeySet(n)
